@@ -1,8 +1,20 @@
 // Family binary "index": C11 C12 C13 C14 C16.
 package main
 
-import "github.com/thanos-io/thanos/verifharness/hlib"
+import (
+	"os"
+
+	"github.com/thanos-io/thanos/verifharness/hlib"
+)
 
 var props []*hlib.Prop
 
-func main() { hlib.Main(props) }
+func main() {
+	// the C16 stress run executes in a child process of this binary (a use of an unmapped
+	// index-header would kill the process)
+	if len(os.Args) > 1 && os.Args[1] == "c16child" {
+		c16Child(os.Args[2:])
+		return
+	}
+	hlib.Main(props)
+}
